@@ -100,6 +100,19 @@ macro_rules! impl_digest {
                 Self::new_truncated($bits::U32 / 2)
             }
         }
+        /// Verification hooks (cfg cryptocorrosion_verif): read / overwrite the block counter.
+        #[cfg(cryptocorrosion_verif)]
+        impl $groestl {
+            pub fn verif_set_counter(&mut self, blocks: u64) {
+                self.block_counter = blocks;
+            }
+            pub fn verif_counter(&self) -> u64 {
+                self.block_counter
+            }
+            pub fn verif_buffer_pos(&self) -> usize {
+                self.buffer.position()
+            }
+        }
         impl Debug for $groestl {
             fn fmt(&self, f: &mut Formatter) -> Result {
                 f.write_str("<$groestl>")
@@ -145,6 +158,19 @@ impl Default for Groestl224 {
         Groestl224(Groestl256::new_truncated(224))
     }
 }
+/// Verification hooks (cfg cryptocorrosion_verif): forwarded to the wrapped hasher.
+#[cfg(cryptocorrosion_verif)]
+impl Groestl224 {
+    pub fn verif_set_counter(&mut self, blocks: u64) {
+        self.0.verif_set_counter(blocks)
+    }
+    pub fn verif_counter(&self) -> u64 {
+        self.0.verif_counter()
+    }
+    pub fn verif_buffer_pos(&self) -> usize {
+        self.0.verif_buffer_pos()
+    }
+}
 impl digest::BlockInput for Groestl224 {
     type BlockSize = U64;
 }
@@ -174,6 +200,19 @@ pub struct Groestl384(Groestl512);
 impl Default for Groestl384 {
     fn default() -> Self {
         Groestl384(Groestl512::new_truncated(384))
+    }
+}
+/// Verification hooks (cfg cryptocorrosion_verif): forwarded to the wrapped hasher.
+#[cfg(cryptocorrosion_verif)]
+impl Groestl384 {
+    pub fn verif_set_counter(&mut self, blocks: u64) {
+        self.0.verif_set_counter(blocks)
+    }
+    pub fn verif_counter(&self) -> u64 {
+        self.0.verif_counter()
+    }
+    pub fn verif_buffer_pos(&self) -> usize {
+        self.0.verif_buffer_pos()
     }
 }
 impl digest::BlockInput for Groestl384 {
